@@ -88,6 +88,32 @@ pub trait Setup: 'static + Send + Sync {
     }
 }
 
+std::thread_local! {
+    static RECOMPOSE_CFG: std::cell::Cell<(usize, bool)> = const { std::cell::Cell::new((1, false)) };
+}
+
+/// (lanes, split coefficient tables) the `*_x` / `bus` functions of [`Setup`] use for the recompose
+/// tables on this thread. Set for the duration of one case by [`RecomposeCfg::set`].
+pub fn recompose_cfg() -> (usize, bool) {
+    RECOMPOSE_CFG.with(|c| c.get())
+}
+
+/// RAII guard: the recompose table configuration of the program under test; back to the default
+/// (one lane, standard table) when dropped.
+pub struct RecomposeCfg;
+impl RecomposeCfg {
+    #[must_use]
+    pub fn set(cfg: (usize, bool)) -> Self {
+        RECOMPOSE_CFG.with(|c| c.set(cfg));
+        RecomposeCfg
+    }
+}
+impl Drop for RecomposeCfg {
+    fn drop(&mut self) {
+        RECOMPOSE_CFG.with(|c| c.set((1, false)));
+    }
+}
+
 macro_rules! impl_setup {
     ($name:ident, $label:expr, $b:ty, $e:ty, $d:expr, $sc:ty, $cfg:path) => {
         pub struct $name;
@@ -117,7 +143,10 @@ macro_rules! impl_setup {
             fn prover_x(packing: TablePacking, recompose: bool, debug_lookups: bool) -> BatchStarkProver<$sc> {
                 let mut p = BatchStarkProver::new($cfg()).with_table_packing(packing);
                 if recompose && $d > 1 {
-                    p.register_recompose_table::<$d>(false);
+                    let (lanes, split) = recompose_cfg();
+                    for tp in p3_circuit_prover::batch_stark_prover::recompose_table_provers::<$sc, $d>(lanes, split) {
+                        p.register_table_prover(tp);
+                    }
                 }
                 if debug_lookups {
                     p = p.with_debug_lookups();
@@ -135,10 +164,13 @@ macro_rules! impl_setup {
                     Vec<Box<dyn p3_circuit_prover::common::NpoPreprocessor<$b>>>,
                     Vec<Box<dyn p3_circuit_prover::common::NpoAirBuilder<$sc, $d>>>,
                 ) = if recompose && $d > 1 {
-                    (
-                        vec![p3_circuit_prover::batch_stark_prover::recompose_preprocessor::<$b>(false)],
-                        p3_circuit_prover::batch_stark_prover::recompose_air_builders::<$sc, $d>(1, false),
-                    )
+                    {
+                        let (lanes, split) = recompose_cfg();
+                        (
+                            vec![p3_circuit_prover::batch_stark_prover::recompose_preprocessor::<$b>(split)],
+                            p3_circuit_prover::batch_stark_prover::recompose_air_builders::<$sc, $d>(lanes, split),
+                        )
+                    }
                 } else {
                     (vec![], vec![])
                 };
@@ -159,10 +191,13 @@ macro_rules! impl_setup {
                     Vec<Box<dyn p3_circuit_prover::common::NpoPreprocessor<$b>>>,
                     Vec<Box<dyn p3_circuit_prover::common::NpoAirBuilder<$sc, $d>>>,
                 ) = if recompose && $d > 1 {
-                    (
-                        vec![p3_circuit_prover::batch_stark_prover::recompose_preprocessor::<$b>(false)],
-                        p3_circuit_prover::batch_stark_prover::recompose_air_builders::<$sc, $d>(1, false),
-                    )
+                    {
+                        let (lanes, split) = recompose_cfg();
+                        (
+                            vec![p3_circuit_prover::batch_stark_prover::recompose_preprocessor::<$b>(split)],
+                            p3_circuit_prover::batch_stark_prover::recompose_air_builders::<$sc, $d>(lanes, split),
+                        )
+                    }
                 } else {
                     (vec![], vec![])
                 };
